@@ -315,6 +315,19 @@ func (r *runner) exec(op Op, res *Res) {
 		}
 		r.c.OverrideService(op.Name, s)
 		res.OK = true
+	case "adddecorator":
+		// the application registers one more decorator on the container it was given (Name = tag, Ctor = decorator function)
+		fn, ok := Ctors[op.Ctor]
+		if !ok {
+			res.Err = "unknown decorator " + op.Ctor
+			return
+		}
+		ds := make([]container.Dependency, len(op.Deps))
+		for i, d := range op.Deps {
+			ds[i] = dep(d)
+		}
+		r.c.Root().AddDecorator(op.Name, fn, ds...)
+		res.OK = true
 	case "independent":
 		// two more containers from the same constructor function: whatever one of them hands out must not be handed out by
 		// the other (op.Ops lists what to fetch); identities as in the stress run (serial, or retained address of pointer literals)
